@@ -544,10 +544,12 @@ func GenExact(r *simrt.RNG, cfg GenCfg) World {
 			w.Parties = append(w.Parties, c)
 			w.Args = append(w.Args, ArgSpec{Kind: ArgConv, Party: len(w.Parties) - 1})
 			callArgs = append(callArgs, len(w.Args)-1)
-		case 3: // provider of the parameter
+		case 3: // provider of the parameter (or, for a type-only one, of a named value of its type)
 			c := Party{InForm: FormPositional, OutForm: FormStruct, Out: []Slot{{Label: p}}, HasErr: r.Bool(), Once: cfg.Once && r.Bool()}
 			if p.Name == "" && p.Sub == "" && r.Bool() {
 				c.OutForm = FormPositional
+			} else if p.Name == "" && r.Bool() {
+				c.Out[0].Name = Names[4+r.Intn(2)]
 			}
 			w.Parties = append(w.Parties, c)
 			w.Args = append(w.Args, ArgSpec{Kind: ArgConvFunc, Party: len(w.Parties) - 1})
